@@ -37,6 +37,8 @@ type E2EParams struct {
 	Snap      bool   `json:"snap"`   // attach the guarded state snapshot to every step
 	QosMode   int    `json:"qosMode"`
 	FarBias   bool   `json:"farBias"`   // C14: most modifications are FAR updates
+	Race      bool   `json:"race"`      // the agent binary is the one built with the race detector: its reports are recorded
+	HB        bool   `json:"hb"`        // heartbeat timer on (short interval), the scripted peers answer the agent's heartbeats
 	HoldFarMs int    `json:"holdFarMs"` // C14: delay of farLookup add while a modification with SNDEM is processed // 1: always configure per-QFI bursts with distinct cbs / pbs / ebs
 }
 
@@ -72,6 +74,14 @@ func e2eRandWorker(args []string) error {
 
 	newWorld := func(run int) error {
 		cfg := agent.Cfg{N4Addr: p.N4Addr, Datapath: "bess", LogLevel: "warn", ReadTimeout: 120, RespTimeout: "2s", MaxReqRetries: 5}
+		if p.HB { // the agent's own requests are in flight all the time, next to its responses
+			cfg.HBTimer, cfg.HBInterval = true, "15ms"
+		}
+
+		if p.Race {
+			cfg.Env = []string{"GORACE=halt_on_error=0"}
+		}
+
 		if p.Alloc == 2 || (p.Alloc == 1 && rng.Intn(2) == 0) {
 			cfg.UEIPAlloc = true
 			ln := 24
@@ -124,6 +134,7 @@ func e2eRandWorker(args []string) error {
 
 		w.HoldFar = time.Duration(p.HoldFarMs) * time.Millisecond
 		w.SnapEvery = p.Snap
+		w.AutoHB = p.HB
 
 		return w.StartAgent()
 	}
@@ -162,6 +173,14 @@ func e2eRandWorker(args []string) error {
 		w = nil
 	}
 
+	closeWorld := func() {
+		if p.Race && w != nil {
+			sum.Stats["race_reports"] += w.RecordRaces()
+		}
+
+		w.Close()
+	}
+
 	for sc := 0; sc < p.Scenarios; sc++ {
 		if w == nil {
 			run++
@@ -169,7 +188,7 @@ func e2eRandWorker(args []string) error {
 			if err := newWorld(run); err != nil {
 				sum.Err = err.Error()
 				if w != nil {
-					w.Close()
+					closeWorld()
 				}
 
 				return err
@@ -203,7 +222,7 @@ func e2eRandWorker(args []string) error {
 			sum.Lines += w.Lines
 			sum.Steps += w.Steps
 			sum.Accepted += w.Accepted
-			w.Close()
+			closeWorld()
 			w = nil
 		case killNow:
 			// crash in the middle of the history (live sessions): the datapath keeps its tables, a new incarnation starts against them;
@@ -222,7 +241,7 @@ func e2eRandWorker(args []string) error {
 
 			if err := w.StartAgent(); err != nil {
 				sum.Err = err.Error()
-				w.Close()
+				closeWorld()
 
 				return err
 			}
@@ -231,7 +250,7 @@ func e2eRandWorker(args []string) error {
 			sum.Lines += w.Lines
 			sum.Steps += w.Steps
 			sum.Accepted += w.Accepted
-			w.Close()
+			closeWorld()
 			w = nil
 		}
 	}
@@ -240,7 +259,7 @@ func e2eRandWorker(args []string) error {
 		sum.Lines += w.Lines
 		sum.Steps += w.Steps
 		sum.Accepted += w.Accepted
-		w.Close()
+		closeWorld()
 	}
 
 	return nil
